@@ -484,7 +484,12 @@ class Exec:
             # must be unreachable
             self.oblige(st, "safe", f"{name}@L{line - self.fn.lineno}:{desc}", z3.BoolVal(False), line)
         else:
-            cond = self.spec_bool(allowed, self.entry_view(st))
+            ev = self.entry_view(st)
+            n0 = len(ev.path)
+            cond = self.spec_bool(allowed, ev)
+            for c_ in ev.path[n0:]:
+                if c_.get_id() in ev.facts_seen:
+                    st.fact(c_)  # ground facts of the encoding met while reading the raise condition (e.g. the language of canon_quad)
             self.oblige(st, "raises", f"{name}@L{line - self.fn.lineno}:{desc}", cond, line)
             self.check_frame(st)
 
